@@ -446,7 +446,12 @@ class ConditionEvaluator(ast.NodeVisitor):
                         typ,
                         exclude_any=exclude_any,
                     ),
-                    left_varmap={varname_node.id: constrain_value(val, constraint)},
+                    # Only the union members that matched flow into the true branch.
+                    left_varmap={
+                        varname_node.id: constrain_value(
+                            subtract_unions(val, remaining), constraint
+                        )
+                    },
                     right_varmap={varname_node.id: remaining},
                 )
             return ConditionReturn(right_varmap={}, condition=NotCondition(condition))
